@@ -216,7 +216,16 @@ def _match_call(b, op):
     (`let gap_end = m.start();`)."""
     cur = op
     for _ in range(8):
-        if cur.get("k") not in ("copy", "move") or cur["pl"]["p"]:
+        if cur.get("k") not in ("copy", "move"):
+            return None
+        if cur["pl"]["p"]:
+            # a component of a tuple built on the spot: `let (s, e) = (m.start(), m.end());`
+            pr = cur["pl"]["p"]
+            dt = b.single_def(cur["pl"]["l"])
+            if len(pr) == 1 and isinstance(pr[0], dict) and str(pr[0].get("f", "")).isdigit() and dt and dt[2] == "assign" \
+                    and dt[3]["rv"]["k"] == "agg" and dt[3]["rv"].get("ak") == "tuple" and int(pr[0]["f"]) < len(dt[3]["rv"].get("ops") or []):
+                cur = dt[3]["rv"]["ops"][int(pr[0]["f"])]
+                continue
             return None
         dd = b.single_def(cur["pl"]["l"])
         if not dd:
